@@ -27,6 +27,8 @@ const (
 	c16PlHiddenCommand
 	c16PlDeep
 	c16PlSibling
+	c16PlNestedOuterEnv // subgroup inside a subgroup: only the outer one carries an env-namespace
+	c16PlNestedBothEnv  // both carry one
 	c16NPlacements
 )
 
@@ -116,6 +118,10 @@ func c16Build(v c16Vec, placement int) *c16Decl {
 		deep.Opts = append(deep.Opts, u)
 	case c16PlSibling:
 		rm.Opts = append(rm.Opts, u)
+	case c16PlNestedOuterEnv:
+		sub.Groups = []*decl.Group{{Field: "In1", Name: "INNERG", Namespace: "inns", Opts: []*decl.Opt{u}}}
+	case c16PlNestedBothEnv:
+		sub.Groups = []*decl.Group{{Field: "In2", Name: "INNERG", Namespace: "inns", EnvNamespace: "INENV", Opts: []*decl.Opt{u}}}
 	}
 	d := (&decl.Decl{Top: top, Options: flags.HelpFlag}).Finish()
 	return &c16Decl{d: d, u: u}
@@ -347,7 +353,7 @@ func init() {
 		ShardDepth: 4,
 		Body:       body,
 		Rule: "option under test with every attribute vector {short only, long only, both} x description? x default {none, tag, tag+mask, tag+mask '-'} x env? x choices? x value-name? x hidden? x required? (768 vectors) " +
-			"x 8 placements (parser group, namespaced subgroup with env-namespace, hidden subgroup, command, command's group, hidden command, sub-subcommand, sibling command) x 5 active chains (none, add, add deep, rm, the hidden command) " +
+			"x 10 placements (parser group, namespaced subgroup with env-namespace, hidden subgroup, command, command's group, hidden command, sub-subcommand, sibling command, subgroup nested in the env-namespaced subgroup without / with its own env-namespace) x 5 active chains (none, add, add deep, rm, the hidden command) " +
 			"x {WriteHelp after a parse that selects the chain, the ErrHelp text of --help at that chain, WriteManPage}; every string is a unique marker; oracle: a visible option's markers (names, value name, choices, description, default or mask, env) are present and its description sits on its row, " +
 			"nothing of a hidden option / hidden group / hidden or inactive command appears, a masked default's real value never appears; the fixed part of the declaration (bystander options, described positionals, commands with aliases, hidden command and group) is checked on every leaf; " +
 			"distinct = distinct (generator, visible?, placement, chain, markers present)",
